@@ -19,6 +19,8 @@ class Capture:
     """records every numpy.random.normal call made while active (and the equivalent spellings
     numpy.random.standard_normal(n) / numpy.random.randn(n), recorded as normal(0, 1, n))"""
 
+    paused = False     # while True the draws pass through unrecorded (simulations of OTHER objects)
+
     def __enter__(self):
         self.calls = []
         self._orig = np.random.normal
@@ -27,17 +29,23 @@ class Capture:
 
         def recording(*a, **k):
             out = self._orig(*a, **k)
+            if self.paused:
+                return out
             args = tuple(a) + tuple(k[x] for x in ("loc", "scale", "size")[len(a):] if x in k)
             self.calls.append((args, np.array(out, dtype=float, copy=True)))
             return out
 
         def recording_sn(size=None, *a, **k):
             out = self._orig_sn(size, *a, **k)
+            if self.paused:
+                return out
             self.calls.append(((0, 1, size), np.array(out, dtype=float, copy=True)))
             return out
 
         def recording_rn(*dims):
             out = self._orig_rn(*dims)
+            if self.paused:
+                return out
             self.calls.append(((0, 1, dims[0] if len(dims) == 1 else dims),
                                np.array(out, dtype=float, copy=True)))
             return out
